@@ -685,6 +685,7 @@ func genFacts(p *pkgInfo) string {
 		leanStr(rf.LookupKey), leanStr(rf.CompileArg), leanStr(rf.InsertKey), leanStr(rf.TestKey), leanStr(rf.StoreArg),
 		leanBool(rf.LockPresent), leanBool(rf.UnlockDeferred), leanBool(rf.LoadAfterLock), leanBool(rf.OnlyFreshWritten), leanBool(rf.CopiesOld),
 		leanStr(rf.MustLookupKey), leanStr(rf.MustCompileArg))
+	fmt.Fprintf(&b, "/-- what compileRegexp returns, in source order, and the package-level variables of rexp.go -/\ndef rexpReturns : List String := %s\ndef rexpPkgVars : List String := %s\n\n", leanStrList(rexpReturns(p)), leanStrList(rexpPkgVars(p)))
 	b.WriteString("/-- every mention of a mutex-guarded package-level variable: (variable, function, site, inside a function that takes the lock) -/\n")
 	b.WriteString("def guardedAccess : List (String × String × String × Bool) := [\n")
 	afs := guardedAccessFacts(p)
@@ -1036,6 +1037,42 @@ func rexpFacts(p *pkgInfo) rexpFact {
 	})
 	rf.LoadAfterLock = lockPos != token.NoPos && loadPos != token.NoPos && lockPos < loadPos
 	return rf
+}
+
+// rexpReturns: the return statements of compileRegexp in source order; rexpPkgVars: the package-level variables of rexp.go
+func rexpReturns(p *pkgInfo) []string {
+	var out []string
+	if fd := p.funcs()["compileRegexp"]; fd != nil && fd.Body != nil {
+		ast.Inspect(fd.Body, func(n ast.Node) bool {
+			if r, ok := n.(*ast.ReturnStmt); ok {
+				out = append(out, strings.TrimPrefix(p.src(r), "return "))
+			}
+			return true
+		})
+	}
+	return out
+}
+
+func rexpPkgVars(p *pkgInfo) []string {
+	var out []string
+	f := p.files["rexp.go"]
+	if f == nil {
+		return out
+	}
+	for _, d := range f.Decls {
+		gd, ok := d.(*ast.GenDecl)
+		if !ok || gd.Tok != token.VAR {
+			continue
+		}
+		for _, sp := range gd.Specs {
+			if vs, ok := sp.(*ast.ValueSpec); ok {
+				for _, n := range vs.Names {
+					out = append(out, n.Name)
+				}
+			}
+		}
+	}
+	return out
 }
 
 // ------------------------------------------------------------ accesses to guarded package-level state
